@@ -5,7 +5,9 @@
  G  Gen_Money: literals in every rated currency and spelling, conversions over all ordered pairs of rated currencies under the
     configured rates (term expectation) and under exact rates set through update_currency, money arithmetic, and every history
     of 3 (thorough 4) calls over update_currency (code, alias, unknown) / evaluate with expected return values and results
- T  random update / evaluate histories with exact rates; trace validated by TLC (Trace.tla)
+ T  random update / evaluate histories with exact rates; trace validated by TLC (Trace.tla); every third history has two
+    calculators alive in the process (Trace.tla `parked`, event `switch`), each with rates of its own
+ P  pairs of TLC's histories lived by two calculators of one process, randomly interleaved
 """
 import json
 import os
@@ -111,7 +113,7 @@ def run(rep):
                 "conversions and arithmetic over 4 currencies under exact rates set through update_currency, and every history of 3 (thorough 4) calls over "
                 "update_currency(code | alias | unknown, 4 rates) and 4 evaluated lines. A case = one line in one spelling (symbol before / after, code, CODE, glued, alias word, "
                 "k / M suffix; keyword to / in / as / into / none) and separator configuration, or one history; non-trivial = two different currencies or a history "
-                "with an update before an evaluation. Random part: histories of 12..40 calls with exact rates, validated by TLC.")
+                "with an update before an evaluation. Random part: histories of 12..40 calls with exact rates, validated by TLC; every third one on two calculators of one process. Pairs: 400 (thorough: all) pairs of TLC's histories on two calculators, interleaved.")
     rep.assumptions = ["renderer lib/render.py (spellings from config.json currency_alias)", "configured rates are read from config.json (the property says 'the configured rate table'); "
                        "terms over them are evaluated in double precision by lib/compare.py at 1e-9", "TLC 1.8.0"]
     r = tlc_must_pass("MC_Percent", "MC_Percent", workers=4, timeout=600)
@@ -273,29 +275,39 @@ def random_trace(rep, nhist):
     metas = []
     for hi in range(nhist):
         cfg = CFGS[rng.randint(0, 1)]
+        two = hi % 3 == 2          # every third history has two calculators alive, with rate tables of their own
         steps = []
         evs = []
-        have = set()
-        # every pool currency gets an exact rate first (in random order, some twice)
-        order = pool[:] + [rng.choice(pool) for _ in range(2)]
-        rng.shuffle(order)
-        n = rng.randint(12, 40)
+        have = {1: set(), 2: set()}
+        # every pool currency gets an exact rate first (in random order, some twice), on each calculator
+        order = {}
+        for c_ in (1, 2):
+            order[c_] = pool[:] + [rng.choice(pool) for _ in range(2)]
+            rng.shuffle(order[c_])
+        cur = 1
+        n = rng.randint(12, 40) + (10 if two else 0)
         while len(steps) < n:
-            if order or rng.random() < 0.25:
-                if order:
-                    c = order.pop()
+            if two and rng.random() < 0.3:
+                to = 3 - cur
+                evs.append({"ev": "switch", "from": cur, "to": to})
+                steps.append(None)
+                cur = to
+            tag = {"calc": 2} if cur == 2 else {}
+            if order[cur] or rng.random() < 0.25:
+                if order[cur]:
+                    c = order[cur].pop()
                     s = rng.choice(spell[c])
                 else:
                     c = rng.choice(pool + ["zzz"])
                     s = rng.choice(spell.get(c, ["zzz", "qqq"]))
                 rate = Fraction(rng.randint(1, 40), 4)
                 sp = s.upper() if rng.random() < 0.3 else s
-                steps.append({"op": "update_currency", "cur": sp, "rate": float(rate)})
+                steps.append(dict({"op": "update_currency", "cur": sp, "rate": float(rate)}, **tag))
                 evs.append({"ev": "update_currency", "cur": s.lower(), "rate": fraction_to_q(rate)})
                 if c in pool:
-                    have.add(c)
+                    have[cur].add(c)
                 continue
-            if len(have) < len(pool):
+            if len(have[cur]) < len(pool):
                 continue
             a, b = rng.choice(pool), rng.choice(pool)
             amt = fraction_to_q(Fraction(rng.randint(-400, 400), rng.choice([1, 2, 4])))
@@ -314,19 +326,37 @@ def random_trace(rep, nhist):
             var, text = rs[rng.randrange(len(rs))]
             if any(ord(ch) > 127 and ch.isalpha() for ch in text):
                 continue
-            steps.append({"op": "execute", "lang": "en", "text": text})
+            steps.append(dict({"op": "execute", "lang": "en", "text": text}, **tag))
             evs.append({"ev": "execute", "lang": "en", "lines": [line]})
-        cases.append({"id": "r%d" % hi, "cfg": cfg, "steps": steps, "fresh": True})
-        metas.append(evs)
+        # a switch is an event of the trace, not a call: the harness steps are the calls, each tagged with its calculator
+        hsteps = [s_ for s_ in steps if s_ is not None]
+        hidx, k_ = [], 0
+        for s_ in steps:
+            hidx.append(None if s_ is None else k_)
+            k_ += 0 if s_ is None else 1
+        case = {"id": "r%d" % hi, "cfg": cfg, "steps": hsteps, "fresh": True}
+        if two:
+            case["two"] = True
+        cases.append(case)
+        metas.append((evs, hidx))
     obs = run_harness_stable_day(cases, "c06.rand", jobs=8)
     events = []
     index = []
-    for case, evs, o in zip(cases, metas, obs):
-        events.append(reset_event(case["cfg"], o.get("day0", 0), extra={"alias": t["alias"], "codes": t["codes"]}))
+    for case, (evs, hidx), o in zip(cases, metas, obs):
+        extra = {"alias": t["alias"], "codes": t["codes"]}
+        if case.get("two"):
+            extra["two"] = True
+        events.append(reset_event(case["cfg"], o.get("day0", 0), extra=extra))
         index.append(None)
         steps = o.get("steps") or []
-        for k, ev in enumerate(evs):
+        for ev, k in zip(evs, hidx):
+            if k is None:
+                events.append(dict(ev))
+                index.append(None)
+                continue
             st = steps[k] if k < len(steps) else o
+            if st.get("outcome") == "toolerror":
+                raise ToolError("c06.rand: %s" % st)
             e = dict(ev)
             if ev["ev"] == "update_currency":
                 e["ret"] = ("true" if st.get("ret") else "false") if st.get("outcome") == "returned" else "panic"
